@@ -414,6 +414,7 @@ def run(ctx):
         ctx.check('C05.G4', not e.get('disc'), f.name, 'ParseExitStatus:discarded', f.where(e),
                   'the parsed status is stored (%s)' % f.name)
     ctx.floor('C05.G4', 5)
+    check_child_lifecycle(ctx)
 
     # ---- E1 -------------------------------------------------------------------------------------
     R('C05.E1', 'E1', 'error discipline over build.cc and ninja.cc: fallible results are used and '
@@ -435,3 +436,156 @@ IGNORE_E1 = {
         'lock-file probe during cleanup; an error means "nothing to remove"',
     ('NinjaMain::ToolRestat', 'NinjaMain::EnsureBuildDirExists'): 'n/a',
 }
+
+
+def check_child_lifecycle(ctx):
+    """C05.S1: from waitpid() to the status the builder sees."""
+    from model import walk, facts_str
+    prog = ctx.prog
+    ctx.rule('C05.S1', 'O', 'a child\'s wait status reaches the builder untouched and once: TryFinish answers "alive" only when '
+             'waitpid() returned 0, otherwise it forgets the pid and stores ParseExitStatus of the very status waitpid() filled in; '
+             'exit_status_ has no other writer; Finish() returns that field after a blocking wait; Done() is "reaped" for console '
+             'children and "pipe closed" for the others; NextFinished() hands out the front of the queue and removes exactly it')
+    tf = prog.fn('Subprocess::TryFinish')
+    wp = list(tf.calls('waitpid'))
+    ctx.check('C05.S1', len(wp) == 1, tf.name, 'TryFinish:waitpid-sites', tf.loc, 'one waitpid() in TryFinish')
+    if len(wp) != 1:
+        raise AnalysisBroken('C05.S1: waitpid() call of Subprocess::TryFinish not found')
+    w = wp[0]
+    ctx.check('C05.S1', mentions_field(w['args'][0], 'Subprocess::pid_') and strip(w['args'][0]).get('k') == 'mem', tf.name, 'waitpid:not-own-child', tf.where(w),
+              'waitpid() waits for this subprocess\'s own pid (never -1 / a group: another child\'s status would be consumed)')
+    stvar = None
+    for x in walk(w['args'][1]):
+        if isinstance(x, dict) and x.get('k') == 'var':
+            stvar = x['n']
+    for e in tf.events('ret'):
+        v = const_value(e.get('e'))
+        facts = tf.facts_at(e)
+        if v in (0, False):
+            def ret_zero(a):
+                a = strip(a)
+                return isinstance(a, dict) and a.get('k') == 'bin' and a['op'] == '==' and const_value(a['r']) == 0 and \
+                    (mentions_call(a['l'], 'waitpid') or mentions_call(deep_resolve(tf, a['l']), 'waitpid') or _only_def_call(tf, a['l'], 'waitpid'))
+            ctx.check('C05.S1', fact_holds(facts, ret_zero, True), tf.name, 'TryFinish:alive-without-zero', tf.where(e),
+                      '"still alive" is answered only where waitpid() returned 0; facts: %s' % facts_str(facts)[:6])
+        else:
+            r1 = tf.find_path(None, lambda x: x is e, from_succ=tf.entry,
+                              is_blocker=lambda x: x['k'] == 'asg' and mentions_field(x['l'], 'Subprocess::pid_') and const_value(x.get('r')) == -1)
+            r2 = tf.find_path(None, lambda x: x is e, from_succ=tf.entry,
+                              is_blocker=lambda x: x['k'] == 'asg' and mentions_field(x['l'], 'Subprocess::exit_status_'))
+            ctx.check('C05.S1', r1 is None and r2 is None, tf.name, 'TryFinish:terminated-without-bookkeeping', tf.where(e),
+                      '"terminated" is answered only after pid_ = -1 and the store of exit_status_')
+    n = 0
+    for f, e, kind, rhs in field_writes(prog, 'Subprocess::exit_status_'):
+        if e.get('init') and f.d.get('ctor'):
+            continue
+        n += 1
+        ok = f.name == 'Subprocess::TryFinish' and isinstance(strip(rhs), dict) and strip(rhs).get('k') == 'call' and \
+            strip(rhs).get('name') == 'ParseExitStatus' and is_var(stvar or '?')(strip(rhs)['args'][0]) and \
+            not any(x['k'] == 'asg' and is_var(stvar or '?')(x['l']) for x in f.events('asg'))
+        ctx.check('C05.S1', ok, f.name, 'exit_status_:other-writer-or-value', f.where(e),
+                  'exit_status_ = ParseExitStatus(%s), the variable waitpid() filled in, unmodified - in %s' % (stvar, f.name))
+    ctx.check('C05.S1', n >= 1, tf.name, 'exit_status_:never-stored', tf.loc, 'the status is stored (%d writers)' % n)
+    fi = prog.fn('Subprocess::Finish')
+    for e in fi.events('ret'):
+        ctx.check('C05.S1', isinstance(strip(e.get('e')), dict) and strip(e['e']).get('k') == 'mem' and strip(e['e'])['n'] == 'Subprocess::exit_status_',
+                  fi.name, 'Finish:returns-other', fi.where(e), 'Finish() returns exit_status_')
+    r = fi.find_path(None, lambda x: x['k'] == 'ret', from_succ=fi.entry, is_blocker=lambda x: x['k'] == 'call' and x.get('name') == 'Subprocess::TryFinish',
+                     edge_ok=lambda b, i, s: not any(mentions_field(a, 'Subprocess::pid_') and const_value(strip(a).get('r')) == -1 and
+                                                     ((strip(a).get('op') == '==') == bool(pol)) for k, pol, a in fi.edge_facts(b, i, all=True)
+                                                     if isinstance(strip(a), dict) and strip(a).get('k') == 'bin' and strip(a).get('op') in ('==', '!=')))
+    ctx.check('C05.S1', r is None, fi.name, 'Finish:returns-before-reaping', fi.loc, 'with a live pid Finish() returns only after TryFinish()',
+              witness=None if r is None else {'blocks': r[0]})
+    # Done(): truth table over the three atoms
+    dn = prog.fn('Subprocess::Done')
+    rets = list(dn.events('ret'))
+    ok = len(rets) >= 1
+    table = {}
+    for cons in (False, True):
+        for reaped in (False, True):
+            for closed in (False, True):
+                vals = set()
+                for e in rets:
+                    # a return is taken into account if its guard facts are compatible with the assignment
+                    env = {'Subprocess::use_console_': cons, 'pid': reaped, 'fd': closed}
+                    if not _compatible(dn, e, env):
+                        continue
+                    vals.add(_eval_done(deep_resolve(dn, e.get('e')), env))
+                want = reaped if cons else closed
+                table['console=%d reaped=%d pipe_closed=%d' % (cons, reaped, closed)] = sorted(map(str, vals))
+                ok = ok and vals == {want}
+    ctx.check('C05.S1', ok, dn.name, 'Done:truth-table', dn.loc,
+              'Done() == (console ? reaped : pipe closed) for all eight combinations: %s' % table)
+    nf = prog.fn('SubprocessSet::NextFinished')
+    pops = [e for e in nf.events('call') if (e.get('name') or '').endswith('::pop')]
+    fronts = [e for e in nf.events('call') if (e.get('name') or '').endswith('::front')]
+    ctx.check('C05.S1', len(pops) == 1 and len(fronts) == 1 and nf.dominates_ev(fronts[0], pops[0]), nf.name, 'NextFinished:front-pop', nf.loc,
+              'NextFinished() reads the front, then pops once')
+    for e in nf.events('ret'):
+        v = deep_resolve(nf, e.get('e'))
+        isnull = const_value(e.get('e')) in (0, None) and 'null' in dstr(e.get('e'))
+        if isnull:
+            ctx.check('C05.S1', fact_holds(nf.facts_at(e), lambda a: 'empty' in dstr(a), True), nf.name, 'NextFinished:null-though-nonempty', nf.where(e),
+                      'null is returned only for an empty queue')
+        else:
+            ctx.check('C05.S1', 'front' in dstr(v) and bool(pops) and nf.ev_reaches(pops[0], e), nf.name, 'NextFinished:returns-other', nf.where(e),
+                      'the subprocess returned is the front element that was popped (%s)' % dstr(v))
+    ctx.floor('C05.S1', 10)
+
+
+def _only_def_call(f, d, callee):
+    d = strip(d)
+    if not (isinstance(d, dict) and d.get('k') == 'var'):
+        return False
+    defs = [e for e in f.events() if (e['k'] == 'asg' and is_var(d['n'])(e['l'])) or
+            (e['k'] == 'decl' and e['n'] == d['n'] and e.get('init') is not None and dstr(e.get('init')) != '_')]
+    return bool(defs) and all(mentions_call(e.get('r') if e['k'] == 'asg' else e.get('init'), callee) for e in defs)
+
+
+def _atom_value(a, env):
+    a = strip(a)
+    if not isinstance(a, dict):
+        return None
+    if a.get('k') == 'mem' and a['n'] == 'Subprocess::use_console_':
+        return env['Subprocess::use_console_']
+    if a.get('k') == 'bin' and a['op'] in ('==', '!=') and const_value(a['r']) == -1 and isinstance(strip(a['l']), dict) and strip(a['l']).get('k') == 'mem':
+        n = strip(a['l'])['n']
+        v = env['pid'] if n == 'Subprocess::pid_' else env['fd'] if n == 'Subprocess::fd_' else None
+        return None if v is None else (v if a['op'] == '==' else not v)
+    if a.get('k') == 'bin' and a['op'] in ('<', '>=') and const_value(a['r']) == 0 and isinstance(strip(a['l']), dict) and strip(a['l']).get('k') == 'mem':
+        n = strip(a['l'])['n']
+        v = env['pid'] if n == 'Subprocess::pid_' else env['fd'] if n == 'Subprocess::fd_' else None
+        return None if v is None else (v if a['op'] == '<' else not v)
+    return None
+
+
+def _eval_done(d, env):
+    d = strip(d)
+    if not isinstance(d, dict):
+        return None
+    v = _atom_value(d, env)
+    if v is not None:
+        return v
+    if d.get('k') == 'un' and d['op'] == '!':
+        x = _eval_done(d['e'], env)
+        return None if x is None else not x
+    if d.get('k') == 'bin' and d['op'] in ('&&', '||'):
+        l, r = _eval_done(d['l'], env), _eval_done(d['r'], env)
+        if d['op'] == '&&':
+            return False if (l is False or r is False) else (True if (l and r) else None)
+        return True if (l or r) else (False if (l is False and r is False) else None)
+    if d.get('k') == 'cond':
+        c = _eval_done(d['c'], env)
+        return None if c is None else _eval_done(d['t'] if c else d['f'], env)
+    cv = const_value(d)
+    if cv in (0, 1, True, False):
+        return bool(cv)
+    return None
+
+
+def _compatible(f, e, env):
+    for k, (pol, a) in f.facts_at(e).items():
+        v = _eval_done(a, env)
+        if v is not None and v != bool(pol):
+            return False
+    return True
